@@ -152,7 +152,11 @@ func (g *Gen) canInline(fn *ssa.Function) bool {
 	}
 	n := 0
 	for _, b := range fn.Blocks {
-		n += len(b.Instrs)
+		for _, in := range b.Instrs {
+			if _, dbg := in.(*ssa.DebugRef); !dbg {
+				n++
+			}
+		}
 		for _, s := range b.Succs {
 			if s.Dominates(b) {
 				return false // loops are never inlined
